@@ -390,6 +390,11 @@ func Judge(sc *Scenario, o *Obs) *Verdict {
 			maxAtt = chanCap
 		}
 	}
+	for _, f := range o.Findings {
+		if f.Key == "valid-service-config-rejected" {
+			return v // the channel could not be created: nothing ran
+		}
+	}
 	for rid, r := range o.RPCs {
 		rp := &sc.RPCs[rid]
 		judgeRPC(v, sc, rp, rid, r, pol, maxAtt, tok)
@@ -513,7 +518,9 @@ func judgeRPC(v *Verdict, sc *Scenario, rp *RPC, rid int, r *RPCObs, pol *Policy
 				tok.maybeFail()
 			}
 			allowed[code] = true
-			strictMsgs = true
+			// messages that preceded a FAILING status need not all be delivered (the
+			// statement does not require it; after a replay that the server interrupted
+			// the library reports the status at once): prefix check only
 		case "unprocessed", "noheaders":
 			allowed[code] = true
 			if !d.found {
@@ -723,11 +730,6 @@ func judgeRPC(v *Verdict, sc *Scenario, rp *RPC, rid int, r *RPCObs, pol *Policy
 		firstWire = false
 	}
 	// ---- how the call ended ----
-	if lostStatus(r) {
-		// known defect class (see lostStatus): the library itself books the call
-		// as successful, so the bucket may have been credited
-		tok.maybeSuccess()
-	}
 	if r.FinishAt >= r.DeadlineAt {
 		allowed[codes.DeadlineExceeded] = true
 	}
@@ -739,10 +741,10 @@ func judgeRPC(v *Verdict, sc *Scenario, rp *RPC, rid int, r *RPCObs, pol *Policy
 		sort.Strings(as)
 		key := "final-status-mismatch"
 		if lostStatus(r) {
-			// RecvMsg returned io.EOF (= success) although the last attempt failed:
-			// the io.EOF of a replayed SendMsg/CloseSend that found the new stream
-			// already ended by the server leaked out as the call's result.
-			key = "eof-leaks-from-interrupted-replay"
+			// RecvMsg returned io.EOF (= success) although the last attempt failed: the
+			// io.EOF of a replayed SendMsg leaked out as the call's result (defect
+			// fixed in /repo 291cb8c; an ordinary violation now, this only refines the message)
+			key = "final-status-mismatch"
 		}
 		v.find(p18, key, "rpc %d (%s) ended with %v (%s) at %v; the reference allows %v after %d wire attempt(s) [%s]", rid, rp.Shape, r.FinalCode, r.FinalErr, r.FinishAt, as, len(r.Atts), strings.Join(parts, " "))
 	}
@@ -755,9 +757,6 @@ func judgeRPC(v *Verdict, sc *Scenario, rp *RPC, rid int, r *RPCObs, pol *Policy
 	}
 	if strictMsgs && r.FinishAt < r.DeadlineAt && len(r.Recv) != len(expectMsgs) && r.FinalCode != codes.DeadlineExceeded {
 		key := "response-messages-mismatch"
-		if lostStatus(r) && len(r.Recv) < len(expectMsgs) {
-			key = "eof-leaks-from-interrupted-replay" // same defect: the response was never read
-		}
 		v.find(p18, key, "rpc %d: the application received %d message(s), the reference expects %d (call ended %v %q)", rid, len(r.Recv), len(expectMsgs), r.FinalCode, r.FinalErr)
 	}
 	// no op may outlive the deadline
